@@ -1,3 +1,4 @@
+-- models (import-free; linked into the driver)
 import OnlVerif.Basic.Num
 import OnlVerif.Kernel.Agenda
 import OnlVerif.Kernel.Types
@@ -8,3 +9,12 @@ import OnlVerif.Kernel.Replay
 import OnlVerif.Net.Fifo
 import OnlVerif.Net.Port
 import OnlVerif.Net.FifoReplay
+-- property theorems (import Mathlib modules one by one)
+import OnlVerif.Props.C01
+import OnlVerif.Props.C02
+import OnlVerif.Props.C03
+import OnlVerif.Props.C04
+import OnlVerif.Props.C05
+import OnlVerif.Props.C06
+import OnlVerif.Props.C07
+import OnlVerif.Props.C09
